@@ -3,6 +3,7 @@ verified functions use.  Everything here is part of the trusted base and is list
 such in the evidence (each handler that fires is recorded through ctx.note)."""
 from __future__ import annotations
 
+import os
 import ast
 import hashlib
 from dataclasses import dataclass
@@ -20,6 +21,28 @@ from .vals import (ANY, BOOL, INT, MAT, NONE, PY, REAL, STR, VEC, I, R, T, TDict
 HOOKS: dict[str, list] = {k: [] for k in ('ref_iter', 'ref_subscript', 'ref_contains', 'ref_attr',
                                               'ref_method', 'construct_special', 'exec_with')}
 
+
+
+# ---------------------------------------------------------------------------
+# array-valued definitions
+# ---------------------------------------------------------------------------
+NAMED_ARRAYS = os.environ.get('PYVC_NAMED_ARRAYS', '0') == '1'
+
+
+def mk_array(st, xs: list, body, tag='arr'):
+    """Array `lambda xs: body` stored in the heap / used as a sequence.
+
+    z3 lambdas inside stored arrays make quantified queries return `unknown` quickly (reported by three agents).  With
+    PYVC_NAMED_ARRAYS=1 the array is a fresh constant A with the pointwise axiom  forall xs. A[xs] == body  (pattern
+    A[xs]): the same theory, friendlier to E-matching.  Under a binder the body mentions bound variables, so the lambda
+    is kept there."""
+    if not NAMED_ARRAYS or st.bound or len(xs) != 1:
+        return z3.Lambda(xs, body)
+    x = xs[0]
+    a = z3.Const(fresh_name(tag), z3.ArraySort(x.sort(), body.sort()))
+    sel = z3.Select(a, x)
+    st.pc.append(z3.ForAll([x], sel == body, patterns=[sel]))
+    return a
 
 def hook(kind):
     """Register an extension handler (pyvc/libext/*.py): returns None to decline."""
@@ -310,7 +333,7 @@ def slice_of(ex, st, obj: V, lo, hi, node) -> V:
         m = z3.simplify(z3.If(b > a, b - a, 0))
         el = st.list_elems(obj)
         j = z3.Int(fresh_name('j'))
-        arr = z3.Lambda([j], z3.Select(el, j + z3.simplify(a)))
+        arr = mk_array(st, [j], z3.Select(el, j + z3.simplify(a)))
         ety = obj.ty.args[0] if obj.ty.args else ANY
         if st.spec:
             return spec_seq(ex, st, m, arr, ety)
@@ -480,7 +503,7 @@ def seq_parts(ex, st: State, v: V):
         view = iter_view(ex, st, v)
         j = z3.Int(fresh_name('j'))
         el = view.get(st, j)
-        return view.n, z3.Lambda([j], ex.box(st, el)), el.ty
+        return view.n, mk_array(st, [j], ex.box(st, el)), el.ty
     if v.kind == 'dict':
         return seq_parts(ex, st, v_py(('dictview', v, 'keys')))
     raise Unsupported(f'not a sequence: {v.kind}')
@@ -490,7 +513,7 @@ def list_concat(ex, st: State, l: V, r: V) -> V:
     ln, la, lt = seq_parts(ex, st, l)
     rn, ra, rt = seq_parts(ex, st, r)
     j = z3.Int(fresh_name('j'))
-    arr = z3.Lambda([j], z3.If(j < ln, z3.Select(la, j), z3.Select(ra, j - ln)))
+    arr = mk_array(st, [j], z3.If(j < ln, z3.Select(la, j), z3.Select(ra, j - ln)))
     ety = lt if lt == rt else (lt if rt.kind == 'any' else (rt if lt.kind == 'any' else ANY))
     if st.spec:
         return spec_seq(ex, st, z3.simplify(ln + rn), arr, ety)
@@ -508,7 +531,7 @@ def list_extend(ex, st: State, lst: V, other: V):
     ln, la, lt = seq_parts(ex, st, lst)
     rn, ra, rt = seq_parts(ex, st, other)
     j = z3.Int(fresh_name('j'))
-    arr = z3.Lambda([j], z3.If(j < ln, z3.Select(la, j), z3.Select(ra, j - ln)))
+    arr = mk_array(st, [j], z3.If(j < ln, z3.Select(la, j), z3.Select(ra, j - ln)))
     r = as_ref(lst)
     st.write(r, '$len', z3.simplify(ln + rn))
     st.write(r, '$elems', arr)
@@ -531,8 +554,8 @@ def dict_update(ex, st: State, d: V, src: V):
     dom_d, dom_s = st.read(r, '$dom'), st.read(s, '$dom')
     map_d, map_s = st.read(r, '$map'), st.read(s, '$map')
     x = z3.Const(fresh_name('x'), Val)
-    st.write(r, '$dom', z3.Lambda([x], z3.Or(z3.Select(dom_d, x), z3.Select(dom_s, x))))
-    st.write(r, '$map', z3.Lambda([x], z3.If(z3.Select(dom_s, x), z3.Select(map_s, x), z3.Select(map_d, x))))
+    st.write(r, '$dom', mk_array(st, [x], z3.Or(z3.Select(dom_d, x), z3.Select(dom_s, x))))
+    st.write(r, '$map', mk_array(st, [x], z3.If(z3.Select(dom_s, x), z3.Select(map_s, x), z3.Select(map_d, x))))
     # key order: keys of d, then the keys of src that are new, in src order -- abstracted:
     # fresh order constrained only in length bounds
     n_d, n_s = st.read(r, '$len'), st.read(s, '$len')
@@ -561,25 +584,25 @@ def set_of(ex, st: State, v: V) -> V:
     n, arr, ety = seq_parts(ex, st, v)
     x = z3.Const(fresh_name('x'), Val)
     j = z3.Int(fresh_name('j'))
-    dom = z3.Lambda([x], z3.Exists([j], z3.And(j >= 0, j < n, z3.Select(arr, j) == x)))
+    dom = mk_array(st, [x], z3.Exists([j], z3.And(j >= 0, j < n, z3.Select(arr, j) == x)))
     return st.new_set(ety, dom)
 
 
 def set_union(ex, st, l, r):
     x = z3.Const(fresh_name('x'), Val)
-    dom = z3.Lambda([x], z3.Or(z3.Select(st.set_dom(l), x), z3.Select(st.set_dom(r), x)))
+    dom = mk_array(st, [x], z3.Or(z3.Select(st.set_dom(l), x), z3.Select(st.set_dom(r), x)))
     return st.new_set(l.ty.args[0] if l.ty.args else ANY, dom)
 
 
 def set_inter(ex, st, l, r):
     x = z3.Const(fresh_name('x'), Val)
-    dom = z3.Lambda([x], z3.And(z3.Select(st.set_dom(l), x), z3.Select(st.set_dom(r), x)))
+    dom = mk_array(st, [x], z3.And(z3.Select(st.set_dom(l), x), z3.Select(st.set_dom(r), x)))
     return st.new_set(l.ty.args[0] if l.ty.args else ANY, dom)
 
 
 def set_diff(ex, st, l, r):
     x = z3.Const(fresh_name('x'), Val)
-    dom = z3.Lambda([x], z3.And(z3.Select(st.set_dom(l), x), z3.Not(z3.Select(st.set_dom(r), x))))
+    dom = mk_array(st, [x], z3.And(z3.Select(st.set_dom(l), x), z3.Not(z3.Select(st.set_dom(r), x))))
     return st.new_set(l.ty.args[0] if l.ty.args else ANY, dom)
 
 
@@ -677,7 +700,7 @@ def comprehension(ex, st: State, node, kind: str) -> V:
                 if st.spec:
                     return spec_seq(ex, st, m, arr, ev_.ty)
                 return st.new_list_sym(m, arr, ev_.ty)
-            arr = z3.Lambda([j], ex.box(st, ev_))
+            arr = mk_array(st, [j], ex.box(st, ev_))
             if st.spec:
                 return spec_seq(ex, st, view.n, arr, ev_.ty)
             return st.new_list_sym(view.n, arr, ev_.ty)
@@ -686,13 +709,13 @@ def comprehension(ex, st: State, node, kind: str) -> V:
             body = z3.And(guard, ex.box(st, ev_) == x)
             if cond is not None:
                 body = z3.And(body, cond)
-            dom = z3.Lambda([x], z3.Exists([j], body))
+            dom = mk_array(st, [x], z3.Exists([j], body))
             return st.new_set(ev_.ty, dom)
         # dict
         if cond is not None:
             raise Unsupported('filtered dict comprehension of symbolic length')
         x = z3.Const(fresh_name('x'), Val)
-        dom = z3.Lambda([x], z3.Exists([j], z3.And(guard, kv.t == x)))
+        dom = mk_array(st, [x], z3.Exists([j], z3.And(guard, kv.t == x)))
         mp = z3.Const(fresh_name('cmap'), z3.ArraySort(Val, Val))
         j2 = z3.Int(fresh_name('j'))
         key2 = z3.substitute(kv.t, (j, j2))
@@ -1137,7 +1160,7 @@ def _b_reversed(ex, st, args, kw, node):
         return st.new_list(list(reversed(src.items))) if not st.spec else spec_list(ex, st, list(reversed(src.items)))
     n, arr, ety = seq_parts(ex, st, src)
     j = z3.Int(fresh_name('j'))
-    rev = z3.Lambda([j], z3.Select(arr, n - 1 - j))
+    rev = mk_array(st, [j], z3.Select(arr, n - 1 - j))
     return spec_seq(ex, st, n, rev, ety)
 
 
@@ -1598,7 +1621,7 @@ def set_method(ex, st, s: V, name, args, kwargs, node):
     if name == 'update':
         o = args[0] if args[0].kind == 'set' else set_of(ex, st, args[0])
         x = z3.Const(fresh_name('x'), Val)
-        st.write(r, '$dom', z3.Lambda([x], z3.Or(z3.Select(st.read(r, '$dom'), x), z3.Select(st.set_dom(o), x))))
+        st.write(r, '$dom', mk_array(st, [x], z3.Or(z3.Select(st.read(r, '$dom'), x), z3.Select(st.set_dom(o), x))))
         return v_none()
     if name == 'issubset':
         o = args[0] if args[0].kind == 'set' else set_of(ex, st, args[0])
